@@ -3,9 +3,10 @@
      layer        |title| title… role mode has_colour r g b vis locked pos_locked alpha alpha_locked transparency ox oy w h dfp
                   nlines (ncells (ch fg bg page attr)…)…           (role: 0 Normal 1 PastePreview 2 PasteImage 3 Image)
      document     w h buffer_type ice palette_mode font_mode (as bytes, i.e. through the generated to_byte tables)
-                  has_sauce nfonts slots… nlayers layer…
+                  has_sauce nfonts slots… (|name| name…)… nlayers layer…       (names in the order of the slots)
    The document level runs the Section of Model/IcyDoc.v with the opaque payloads standing for themselves:
-   sauce_t = palette_t = payload bytes, font_t = (name bytes, PSF2 bytes). *)
+   sauce_t = palette_t = payload bytes, font_t = (name bytes, PSF2 bytes); the name of the font that Buffer::new
+   installs in slot 0 is an argument of run_load (the plug-in reads it off a document loaded without FONT_ chunks). *)
 From Coq Require Import ZArith NArith List Bool String Ascii.
 From IE Require Import Lib.Tbl Gen.IcyGen Model.IcyLayer Model.IcyDoc.
 Import ListNotations.
@@ -55,8 +56,8 @@ Definition x_font_dec (name data : list N) : res fnt := Ok (name, data).
 
 Definition xdoc := doc payload payload fnt.
 Definition x_chunks (D : xdoc) := doc_chunks payload payload fnt x_sauce_enc x_pal_is_default x_pal_enc (@fst _ _) (fun f => Ok (snd f)) D.
-Definition x_load (cs : list (string * list N)) :=
-  load payload payload fnt _ x_unpack x_sauce_dec x_sauce_set_size x_pal_dec [] x_font_dec ([], []) cs.
+Definition x_load (dname : list N) (cs : list (string * list N)) :=
+  load payload payload fnt _ x_unpack x_sauce_dec x_sauce_set_size x_pal_dec [] x_font_dec (dname, []) cs.
 
 Definition str_codes (s : string) : list Z := map (fun a => Z.of_N (N_of_ascii a)) (list_ascii_of_string s).
 
@@ -76,8 +77,9 @@ Definition obs_doc (D : xdoc) : list Z :=
          tget PaletteMode_to_byte_tbl (d_pmode _ _ _ D); tget FontMode_to_byte_tbl (d_fmode _ _ _ D)]
   ++ [match d_sauce _ _ _ D with Some _ => 1%Z | None => 0%Z end; Z.of_nat (List.length (d_fonts _ _ _ D))]
   ++ zn (map fst (d_fonts _ _ _ D))
+  ++ flat_map (fun kf => Z.of_nat (List.length (fst (snd kf))) :: zn (fst (snd kf))) (d_fonts _ _ _ D)
   ++ Z.of_nat (List.length (d_layers _ _ _ D)) :: flat_map obs_layer (d_layers _ _ _ D).
 
 Definition str_of (l : list N) : string := string_of_list_ascii (map ascii_of_N l).
-Definition run_load (cs : list (list N * list N)) : list Z :=
-  out obs_doc (x_load (map (fun c => (str_of (fst c), snd c)) cs)).
+Definition run_load (dname : list N) (cs : list (list N * list N)) : list Z :=
+  out obs_doc (x_load dname (map (fun c => (str_of (fst c), snd c)) cs)).
